@@ -5,6 +5,7 @@ import (
 	"math/rand"
 
 	"github.com/yaricom/goNEAT/v4/neat/genetics"
+	"github.com/yaricom/goNEAT/v4/neat/network"
 )
 
 // C06 - duplicating a genome gives an exact, independent copy.
@@ -123,6 +124,15 @@ func c06Duplication(c *Ctx, f *Family, r *rand.Rand, modular bool) {
 	if modular && len(f.Members) > 1 && r.Intn(2) == 0 {
 		src = f.Members[0]
 	}
+	// the source may have been expressed before it is copied: its nodes then point to their counterparts in the network,
+	// which is part of the source's state as well (the recurrence test of add-link works from it)
+	if r.Intn(2) == 0 {
+		_, _ = src.Genesis(src.Id)
+	}
+	analogues := make([]*network.NNode, len(src.Nodes))
+	for i, n := range src.Nodes {
+		analogues[i] = n.PhenotypeAnalogue
+	}
 	before := snapGenome(src)
 	dup, err := src.VerifDuplicate(f.newId())
 	c.Eval(1)
@@ -146,6 +156,12 @@ func c06Duplication(c *Ctx, f *Family, r *rand.Rand, modular bool) {
 	if d := diffGenomes(before, snapGenome(src)); d != "" {
 		c.Violate("source-modified", detail(), "duplication modified the original: %s", d)
 		return
+	}
+	for i, n := range src.Nodes {
+		if i < len(analogues) && n.PhenotypeAnalogue != analogues[i] {
+			c.Violate("source-modified", detail(), "duplication changed the link between node %d of the original and its counterpart in the expressed network", n.Id)
+			return
+		}
 	}
 	if sh := genomePointers(src).sharedWith(genomePointers(dup)); sh != "" {
 		c.Violate("shared-state", detail(), "the copy shares mutable state with the original: %s", sh)
